@@ -14,7 +14,13 @@ import (
 )
 
 func init() {
-	core.Register(core.Check{ID: "C04", Level: "exploration", Run: func(c *core.Ctx) { runC04(c); historyPass(c, "C04"); reentrancyPass(c, "C04"); arch386Pass(c, "C04") }})
+	core.Register(core.Check{ID: "C04", Level: "exploration", Run: func(c *core.Ctx) {
+		waitArch := background(func() { arch386Pass(c, "C04") })
+		runC04(c)
+		historyPass(c, "C04")
+		reentrancyPass(c, "C04")
+		waitArch()
+	}})
 }
 
 func c04Class(s string) string {
